@@ -45,6 +45,9 @@ def run(ck):
                 for p in returning(paths, inst):
                     inst = base_inst + ("[%s]" % path_tag(p) if len(paths) > 1 else "")
                     s, o, smp, r = p.value
+                    _mx = batch_reductions(p, ("B",))
+                    ck.check(not _mx, "C08.R2", inst + ":each sample's value depends on that sample only", _mx[0][0] if _mx else asite,
+                             "%s over the axes %s, which include the batch axis: the per-sample values of a batch are mixed" % ((_mx[0][1], _mx[0][2]) if _mx else ("", "")))
                     # ---------------- R1: the batch is not written
                     wr = [e for e in p.effects if "param:samples" in e.origins and e.kind in ("write", "meta")]
                     ck.check(not wr, "C08.R1", inst + ":samples untouched", wr[0].site if wr else asite,
